@@ -752,6 +752,39 @@ func planC13(tier string, seed int64) (*core.Plan, error) {
 						}
 					}
 				}
+				// where / filter read through a list: paths from the row through its containers (present
+				// in some rows, absent in others) to their leaves
+				for i := range f.DS {
+					ln := &f.DS[i]
+					if ln.Kind != "list" {
+						continue
+					}
+					var lp abs.Path
+					for _, cp := range stored.Cont {
+						if !cp.IsEntry() && strings.Join(cp.SPath(), "/") == strings.Join(ln.SP, "/") {
+							lp = cp
+							break
+						}
+					}
+					if lp == nil {
+						continue
+					}
+					for j := range f.DS {
+						leaf := &f.DS[j]
+						if (leaf.Kind != "leaf" && leaf.Kind != "leaflist") || len(leaf.SP) < len(ln.SP)+2 ||
+							strings.Join(leaf.SP[:len(ln.SP)], "/") != strings.Join(ln.SP, "/") {
+							continue
+						}
+						rel := strings.Join(leaf.SP[len(ln.SP):], "/")
+						for _, x := range []string{rel + "='u'", rel + "!=1", rel, rel + ">0"} {
+							for _, param := range []string{"where", "filter"} {
+								c := base("xpath", "pathological", "row-path")
+								c["at"], c["op"], c["text"] = lp, param, x
+								emit(c)
+							}
+						}
+					}
+				}
 				// SetValue on every leaf whose parent exists in the stored tree
 				if ti < 2 {
 					seen := map[string]bool{}
